@@ -240,8 +240,12 @@ def reset_world(seed):
         for m in [m for m in sys.modules if m.startswith("fw_") and m not in WORLD.initial_modules]:
             del sys.modules[m]
     g = sys.modules.get("einx._src.tracer.graph")
-    if g is not None and hasattr(g._dependon, "stack"):
-        del g._dependon.stack
+    try:  # tolerant of refactorings of the tracing context stack: empty whatever list this thread sees
+        st = getattr(getattr(g, "_dependon", None), "stack", None)
+        if isinstance(st, list):
+            del st[:]
+    except Exception:
+        pass
     seed_uuid(seed)
 
 
